@@ -354,6 +354,10 @@ def _eq(ex, st, a: V, b: V):
         return z3.And([_eq(ex, st, x, y) for x, y in zip(ia, ib)] + [z3.BoolVal(True)])
     if isinstance(a, VUnk) or isinstance(b, VUnk):
         return z3.BoolVal(False)
+    if isinstance(a, VSeq) and isinstance(b, VSeq):
+        # goal position only: the free index constant makes the VC range over every index
+        j = z3.Int(fresh_name("j!eq"))
+        return z3.And(a.length == b.length, z3.Implies(z3.And(j >= 0, j < a.length), _eq(ex, st, a.elem(j), b.elem(j))))
     try:
         return ops.eq_term(a, b)
     except Unsupported:
